@@ -84,9 +84,83 @@ fn walrus_run(c: &CaseIn) -> Result<Vec<u8>, String> {
     }
 }
 
+/// C17 on the parallel build: every history of add / delete(any live) on the function collection up
+/// to `depth`; in every state the parallel iterators must yield exactly what the sequential ones do
+/// (the live items). Prints one JSON line.
+fn ids_mode(depth: usize) {
+    use rayon::prelude::*;
+    #[derive(Clone, Copy, Debug)]
+    enum Op {
+        Add,
+        Del(usize),
+    }
+    fn build(h: &[Op]) -> (walrus::Module, Vec<Option<walrus::FunctionId>>) {
+        let mut m = walrus::Module::default();
+        let mut issued: Vec<Option<walrus::FunctionId>> = vec![];
+        for (k, op) in h.iter().enumerate() {
+            match op {
+                Op::Add => {
+                    let mut b = walrus::FunctionBuilder::new(&mut m.types, &[], &[]);
+                    b.func_body().i32_const(k as i32).drop();
+                    issued.push(Some(b.finish(vec![], &mut m.funcs)));
+                }
+                Op::Del(i) => {
+                    if let Some(f) = issued[*i].take() {
+                        m.funcs.delete(f);
+                    }
+                }
+            }
+        }
+        (m, issued)
+    }
+    let mut states = 0u64;
+    let mut frontier: Vec<Vec<Op>> = vec![vec![]];
+    let mut bad: Option<String> = None;
+    'outer: for _ in 0..=depth {
+        let mut next = vec![];
+        for h in &frontier {
+            states += 1;
+            let (mut m, issued) = build(h);
+            let mut seq: Vec<usize> = m.funcs.iter().map(|f| f.id().index()).collect();
+            seq.sort();
+            let mut live: Vec<usize> = issued.iter().flatten().map(|f| f.index()).collect();
+            live.sort();
+            let mut par: Vec<usize> = m.funcs.par_iter().map(|f| f.id().index()).collect();
+            par.sort();
+            let mut parl: Vec<usize> = m.funcs.par_iter_local().map(|(id, _)| id.index()).collect();
+            parl.sort();
+            let mut parm: Vec<usize> = m.funcs.par_iter_mut().map(|f| f.id().index()).collect();
+            parm.sort();
+            let mut parlm: Vec<usize> = m.funcs.par_iter_local_mut().map(|(id, _)| id.index()).collect();
+            parlm.sort();
+            for (name, got) in [("iter", &seq), ("par_iter", &par), ("par_iter_local", &parl), ("par_iter_mut", &parm), ("par_iter_local_mut", &parlm)] {
+                if *got != live {
+                    bad = Some(format!("after {:?}: funcs.{}() yields ids {:?}, the live functions are {:?}", h, name, got, live));
+                    break 'outer;
+                }
+            }
+            let nlive: Vec<usize> = issued.iter().enumerate().filter(|(_, x)| x.is_some()).map(|(i, _)| i).collect();
+            let mut h2 = h.clone();
+            h2.push(Op::Add);
+            next.push(h2);
+            for i in nlive {
+                let mut h2 = h.clone();
+                h2.push(Op::Del(i));
+                next.push(h2);
+            }
+        }
+        frontier = next;
+    }
+    println!("{}", json!({"mode": "ids", "depth": depth, "states": states, "verdict": if bad.is_some() { "diff" } else { "ok" }, "detail": bad}));
+}
+
 fn main() {
     std::panic::set_hook(Box::new(|_| {}));
     let av: Vec<String> = std::env::args().collect();
+    if av.get(1).map(|s| s.as_str()) == Some("ids") {
+        ids_mode(av.get(2).and_then(|x| x.parse().ok()).unwrap_or(5));
+        return;
+    }
     let cases = read_cases(&av[1]);
     let repeats: usize = av[2].parse().unwrap_or(5);
     let pools: Vec<(usize, rayon::ThreadPool)> = (1..=16).map(|t| (t, rayon::ThreadPoolBuilder::new().num_threads(t).build().unwrap())).collect();
